@@ -49,14 +49,14 @@ ARCS_INV = ["CosOrderTable", "ShortIsLib", "IncludeIsLib", "ArePermutations", "S
 
 
 def forms_job(name, n, rng, rows, supp=None, mincong=0, maxcong=0, formrng=1, condk=50, rat=False,
-              workers=4, simulate=None, depth=None):
+              workers=4, simulate=None, depth=None, init="Init"):
     inv = list(FORMS_INV)
     if rat:
         inv.insert(-1, "RatAgrees")
     return dict(name=name, module="num/Forms.tla", workers=workers, simulate=simulate, depth=depth,
                 cfg=core.cfg(constants=dict(N=n, Rng=rng, MaxSupp=supp or n, MaxRows=rows, MinCong=mincong,
                                             MaxCong=maxcong, FormRng=formrng, CondK=condk),
-                             invariants=inv, view="View"))
+                             invariants=inv, view="View", init=init))
 
 
 def kernel_job(name, n, rng, rows, supp=None, workers=4, simulate=None, depth=None):
@@ -178,6 +178,15 @@ def gs_groups(recs):
     return g
 
 
+def rows_err(out, R):
+    """distance between two row sets, row by row and up to the sign of each row (orthogonal, norm +-1
+    and 'same flag' determine every row up to its sign, which the property leaves free)"""
+    with np.errstate(all="ignore"):
+        e = np.minimum(np.abs(out - R).max(axis=-1), np.abs(out + R).max(axis=-1))
+        e = np.where(np.isfinite(e), e, np.inf)
+    return e.max(axis=-1)
+
+
 def check_orth(V, F, X, R, out, cases, tag, idx=None):
     """out: library result for the stacked input X (B,k,n); R exact rows"""
     n_bad = 0
@@ -186,7 +195,7 @@ def check_orth(V, F, X, R, out, cases, tag, idx=None):
               dict(form=F.tolist(), got=list(out.shape), want=list(X.shape), shape=tag))
         return 1
     scale = np.maximum(1.0, np.abs(R).max(axis=(-1, -2))) ** 2
-    err = np.abs(out - R).max(axis=(-1, -2))
+    err = rows_err(out, R)
     bad = ~(err <= TOL * scale)
     for i in np.nonzero(bad)[0][:3]:
         c = cases[i if idx is None else idx[i]]
@@ -229,13 +238,10 @@ def check_isometry(V, F, X, R, cases, fo, out, tag):
         ok &= finite & (mx <= 20 * cases[0]["condk"])       # a bounded-condition completion exists
         lead_ok = ok & (sg[:, :k] == eps).all(axis=-1)
         count_ok = ok & ((sg < 0).sum(axis=-1) == neg)
-        # leading rows are determined: equal to the exact rows (last row up to sign when it was reflected)
+        # leading rows are determined up to sign: the exact rows of the specification
         lead = out[:, :k, :]
         rs = np.maximum(1.0, np.abs(R).max(axis=(-1, -2))) ** 2
-        d = np.abs(lead - R)
-        if fo and k == n:
-            d[:, -1, :] = np.minimum(d[:, -1, :].max(axis=-1), np.abs(lead[:, -1, :] + R[:, -1, :]).max(axis=-1))[:, None]
-        rows_ok = d.max(axis=(-1, -2)) <= TOL * rs
+        rows_ok = rows_err(lead, R) <= TOL * rs
         det_ok = np.ones(B, dtype=bool)
         if fo:
             det_ok = np.linalg.det(np.where(finite[:, None, None], out, 0.0)) > 0
@@ -295,6 +301,33 @@ def check_complement(V, F, X, cases, out, tag):
                        result=np.round(out[i], 6).tolist(), gram=np.round(G[i], 6).tolist()))
         if (~mask).any():
             break
+
+
+def check_definite(run, V, U, x, R, c):
+    """find_definite_isometry (Euclidean form, QR based; not among the property's observation points, so only
+    what holds under either reading of its docstring is required): the result is orthogonal, has positive
+    determinant on request, and -- without the reflection -- its leading rows or its leading columns are the
+    exact orthonormalised rows up to sign"""
+    k, n = x.shape
+    for fo in (False, True):
+        out, err = call(U.find_definite_isometry, x.copy(), fo)
+        run.evaluations += 1
+        run.actions["find_definite_isometry"] = run.actions.get("find_definite_isometry", 0) + 1
+        key = "definite:%s:fo=%s" % (jkey(c["rows"]), fo)
+        if err:
+            V.add(key, "find_definite_isometry.raised", dict(rows=c["rows"], force_oriented=fo, error=err))
+            continue
+        Q = np.asarray(out, dtype=float)
+        if Q.shape != (n, n):
+            V.add(key, "find_definite_isometry.shape", dict(rows=c["rows"], got=list(Q.shape), want=[n, n]))
+            continue
+        if not np.abs(Q @ Q.T - np.eye(n)).max() <= TOL:
+            V.add(key, "find_definite_isometry.orthogonal", dict(rows=c["rows"], force_oriented=fo, result=np.round(Q, 6).tolist()))
+        elif fo and not np.linalg.det(Q) > 0:
+            V.add(key, "find_definite_isometry.det_positive", dict(rows=c["rows"], result=np.round(Q, 6).tolist()))
+        elif not fo and not (rows_err(Q[None, :k, :], R[None])[0] <= TOL or rows_err(Q.T[None, :k, :], R[None])[0] <= TOL):
+            V.add(key, "find_definite_isometry.flag", dict(rows=c["rows"], want_rows_up_to_sign=np.round(R, 6).tolist(),
+                                                           result=np.round(Q, 6).tolist()))
 
 
 def replay_gs(run, V, recs, single_every):
@@ -389,6 +422,8 @@ def replay_gs(run, V, recs, single_every):
                               dict(form=c["F"], rows=c["rows"], shape=tag, got=list(np.asarray(out).shape), want=[n, n]))
                     else:
                         check_isometry(V, F, X[i:i + 1], R[i:i + 1], [c], fo, np.asarray(out)[None], tag)
+            if k < n and np.array_equal(F, np.eye(n)):
+                check_definite(run, V, U, x, R[i], c)
             if i == 0 and k >= 2:
                 run.sample(dict(kind="Gram-Schmidt state", form=c["F"], rows=c["rows"], w_num=c["wn"], w_den=c["wd"],
                                 norm_num=c["nn"], signs=c["eps"], expected_rows=np.round(R[i], 6).tolist()))
@@ -682,13 +717,22 @@ def replay_arcs(run, V, recs, single_every):
 
 # ----------------------------------------------------------------------------------------
 def run(run, replay=None):
+    if replay:
+        # a replay file names the failing input; the check is deterministic for a given (tier, seed),
+        # so re-executing that tier and seed re-executes exactly that behaviour
+        with open(replay) as f:
+            rp = json.load(f)
+        run.tier = rp.get("tier", run.tier)
+        run.seed = rp.get("seed", run.seed)
+        print("replaying tier=%s seed=%s; recorded first violation: %s" % (run.tier, run.seed, json.dumps(rp.get("first"))[:400]))
     quick = run.tier == "quick"
     run.rule = ("a case is one OBS record (one TLC state: form / form+rows / matrix / point set / angle triple) replayed "
                 "through every helper it is in the domain of, in 2-4 batch shapes; distinct_nontrivial counts distinct "
                 "records; evaluations counts library calls (a stacked call covers a whole group of records)")
     run.assumptions += [
-        "forms: diag(+-1) of every signature and sign order, n <= 6, and their images under elementary integer congruences "
-        "with entries bounded by FormRng (so |det| = 1)",
+        "forms: diag(+-1) of every signature and sign order, n <= 6, their images under elementary integer congruences with "
+        "entries bounded by FormRng (|det| = 1), and every symmetric integer matrix with entries in [-3, 3] (n = 2), [-1, 1] "
+        "(n = 3; [-2, 2] thorough, n = 4 sampled) whose leading minors are all non-zero",
         "rows: integer, entries in [-Rng, Rng], every leading Gram minor non-zero, orthonormalised entries <= CondK = 50 "
         "(the bounded-condition clause); exhaustive for n <= 3, TLC simulation (seeded) for n = 4..6",
         "kernel: integer matrices with entries in [-1, 1] or [-2, 2], all ranks including rank-deficient, tall and zero rows; "
@@ -704,6 +748,9 @@ def run(run, replay=None):
             forms_job("forms_n3_sim", 3, 1, 3, workers=W, simulate=60, depth=6),
             forms_job("forms_n3_cong", 3, 1, 2, mincong=2, maxcong=2, formrng=2, workers=W, simulate=30, depth=8),
             forms_job("forms_n3_walk", 3, 1, 0, maxcong=99, formrng=2, workers=W),
+            forms_job("forms_sym_n2", 2, 1, 0, formrng=3, workers=2, init="InitSym"),
+            forms_job("forms_sym_n3", 3, 1, 0, formrng=1, workers=2, init="InitSym"),
+            forms_job("forms_sym_n3_sim", 3, 1, 3, formrng=1, workers=W, simulate=40, depth=5, init="InitSym"),
             forms_job("forms_n4_sim", 4, 2, 4, supp=3, workers=W, simulate=40, depth=8),
             forms_job("forms_n5_sim", 5, 1, 5, supp=4, mincong=0, maxcong=0, workers=W, simulate=25, depth=8),
             forms_job("forms_n6_sim", 6, 1, 6, supp=3, workers=W, simulate=25, depth=10),
@@ -725,6 +772,10 @@ def run(run, replay=None):
             forms_job("forms_n3_cong", 3, 1, 2, mincong=1, maxcong=1, formrng=1, workers=8),
             forms_job("forms_n3_walk", 3, 1, 0, maxcong=99, formrng=2, workers=W),
             forms_job("forms_n4_walk", 4, 1, 0, maxcong=3, formrng=1, workers=8),
+            forms_job("forms_sym_n2", 2, 2, 2, formrng=3, workers=W, init="InitSym"),
+            forms_job("forms_sym_n3", 3, 1, 1, formrng=1, workers=W, init="InitSym"),
+            forms_job("forms_sym_n3_r2", 3, 1, 0, formrng=2, workers=8, init="InitSym"),
+            forms_job("forms_sym_n3_sim", 3, 1, 3, formrng=1, workers=W, simulate=400, depth=5, init="InitSym"),
             forms_job("forms_n4_sim", 4, 2, 4, workers=W, simulate=400, depth=8),
             forms_job("forms_n4_cong", 4, 1, 4, mincong=3, maxcong=3, formrng=2, workers=W, simulate=300, depth=10),
             forms_job("forms_n5_sim", 5, 1, 5, workers=W, simulate=300, depth=8),
@@ -762,6 +813,9 @@ def run(run, replay=None):
     for k, v in sorted(recs.items()):
         if k.startswith("arcs"):
             n_arc += replay_arcs(run, V, v, single_every)
+    if os.environ.get("C18_DIAG"):
+        print("C18 phases: tlc %.1fs replay %.1fs; %s" % (t_tlc, time.time() - t0 - t_tlc,
+              ", ".join("%s=%.1fs/%d" % (d["run"], d["wall_s"], d["distinct"]) for d in run.tlc_runs)))
     run.extra["phase_wall_s"] = dict(tlc=round(t_tlc, 1), replay=round(time.time() - t0 - t_tlc, 1))
     run.extra["records"] = dict(gram_schmidt_states=n_gs, forms=n_forms, kernels=n_ker, spheres=n_sph, arc_cases=n_arc)
     run.extra["violations_by_clause_family"] = dict(V.count)
